@@ -10,32 +10,37 @@ THEOREMS = [
     'Ndn.C11.matchTree_iff_Sem', 'Ndn.C11.compile_correct_partial', 'Ndn.C11.compiled_match_iff', 'Ndn.C11.compiled_vdet',
     'Ndn.C11.tree_eq_chains', 'Ndn.C11.checker_reports_iff_chain', 'Ndn.C11.merge_key_test_sound', 'Ndn.C11.compile_split',
     'Ndn.C11.matchNames_spec',
+    'Ndn.C11.compile_correct', 'Ndn.C11.compile_correct_keytest', 'Ndn.C11.compile_correct_named', 'Ndn.C11.chains_are_expansions',
+    'Ndn.C11.chain_accepts_iff_src', 'Ndn.C11.srcMatch_computes',
 ]
 PARTIAL = {
     'Ndn.C11.compile_correct_partial':
-        'compile_correct (source semantics of lvs.rst = semantics of the compiled tree) is proved only in part. The compiler passes '
-        'ARE modelled in Lean (NdnModel/Lvs/{Ast,Compile}.lean: rule sorting with top_order, pattern numbering, DNF replication / '
-        'reference inlining with fresh temporaries, node merging by pattern_movement keys, signer resolution) and the model is tied '
-        'to compile_lvs on every run by differential execution (schema AST -> Lean compiler -> node pool compared with the real '
-        'compiler\'s pool: exactly, or in a canonical form if they differ only in the numbering of nodes/tags). Proved about the '
-        'compiler model: (1) its output on every AST the parser can produce is Sane and VDet, so the checker theorems apply to it '
-        'without further hypotheses (compiled_match_iff); (2) the node-merging layer (tree_eq_chains, checker_reports_iff_chain): '
-        'the compiled tree reports rule r with bindings s for a name iff one of the replicated chains of r accepts the name on its own '
-        'with bindings s (ChainRun) - under the hypothesis KeyInj that pattern_movement\'s merge key determines tag and constraints, '
-        'which follows from a computable test (merge_key_test_sound) that the Lean driver evaluates on every generated schema and the '
-        'harness requires to hold. Proved for every model that passes the loader: the iterative checker reports (node, bindings) iff '
-        'the name matches that node in the path semantics of the compiled tree. Still resting on the correspondence run and on the '
-        'source-level oracle (an independent Python transcription of lvs.rst): the two earlier layers - pattern numbering preserves '
-        'the source semantics; rule replication = union over DNF alternatives and inlined references with fresh temporaries per '
-        'occurrence (chains = rules as written) - and KeyInj as a general fact about the key encoding.',
+        'compile_correct_partial is the compiled-model layer only; the full statement is now proved as compile_correct (source semantics '
+        'of lvs.rst = what Checker.match reports on the compiled model): the source-level semantics is written in Lean from the document '
+        '(NdnModel/Lvs/SrcSem.lean: Expands = embedded rules replaced by any of their definitions, constraint sets and repeated '
+        'definitions as alternatives, constraints inherited; Flat.run = left-to-right matching, named patterns bind or repeat, a '
+        'temporary pattern local to its occurrence carrying its own constraints, options evaluated at the first occurrence against the '
+        'bindings so far), and every compiler layer is proved against it: pattern numbering (genPatternNumbers_num), DNF replication and '
+        'reference inlining with _fresh_temp_tags as an injective renaming into unused numbers (replicateLoop_sem, chains_are_expansions: '
+        'chains = expansions of the definitions, rule by rule), a chain accepts what its expansion matches (chain_accepts_iff_src), '
+        'node merging (tree_eq_chains), the iterative search (compiled_match_iff). ONE hypothesis remains in compile_correct: KeyInj - '
+        'pattern_movement\'s merge key (a string) determines tag and constraints on the chains of the schema; it is a fact about the '
+        'string encoding, not proved in general; it follows from the computable test keyInjB (merge_key_test_sound, '
+        'compile_correct_keytest), which the Lean driver evaluates on every generated schema and the harness requires to be true. '
+        'Temporary rules are judged under the identifier pass 1 gives them (#_x#k); for every other rule the statement holds for the text '
+        'exactly as written (compile_correct_named). The compiler model itself is tied to compile_lvs by differential execution on every '
+        'run (node pools compared), and the Lean source semantics is tied to the code independently of the theorems: its executable form '
+        '(srcMatch, proved to compute SrcMatches: srcMatch_computes) is compared on every generated schema and name with the real '
+        'Checker.match and with the Python transcription of lvs.rst.',
 }
 TRUSTED = [
-    'C11: the theorems are at the compiled-model level; source text -> model is covered by the oracle (a Python transcription of '
-    'docs/src/lvs/lvs.rst: references expanded with fresh temporaries per occurrence, constraint sets / repeated definitions as '
-    'alternatives, constraints of a pattern evaluated at its first occurrence against the bindings made so far)',
+    'C11: that NdnModel/Lvs/SrcSem.lean (120 lines: Expands, Flat.run, SrcMatches) says what docs/src/lvs/lvs.rst says - it is read '
+    'against the document, and run against the real Checker.match and against an independently written Python transcription of the '
+    'document (lvs_common.Spec) on every generated schema and name',
+    'C11: KeyInj (the merge key string determines tag and constraints) is a hypothesis of compile_correct, tested per schema (keyInjB)',
     'C11: save/load is the TLV codec (C08); the harness compares the model object and the match results before and after',
-    'C11: lark (text -> AST) and the pretty-printer of the schema generator; the Lean compiler model receives the AST the '
-    'generator pretty-prints (literal components as the bytes Component.from_str gives)',
+    'C11: lark (text -> AST) and the pretty-printer of the schema generator; the Lean compiler model and the Lean source semantics '
+    'receive the AST the generator pretty-prints (literal components as the bytes Component.from_str gives)',
 ]
 RULE = ('generated schemas (rule references incl. the same rule twice in one name, nested references, redefinitions, temporary rules '
         'and patterns, constraints on temporaries / inherited named patterns / patterns of other rules, multi-option and multi-set '
@@ -47,6 +52,8 @@ RULE = ('generated schemas (rule references incl. the same rule twice in one nam
         'component dropped/added) of every alternative plus random names up to length 5 over the alphabet {every literal of the schema} '
         '+ two fresh components (one generic, one typed); thorough: additionally all names up to length 3. Compared: ordered match '
         'lists (rule names, bindings) of the Lean matcher on the exported node pool vs the real Checker, before and after save/load; '
+        'the set of (rule, bindings) the Lean SOURCE-LEVEL semantics (srcMatch on the AST, no compiled model) gives for every name vs the set '
+        'the real Checker reports and vs the set the Python oracle gives; '
         'oracle: the set of (rule, bindings) equals the source-level semantics. non-trivial = some name matches and some does not; '
         'distinct = distinct (schema, names)')
 
@@ -105,6 +112,25 @@ def _rule_set(outs, symbols):
     return res
 
 
+def _canon_set(st):
+    """a set of (rule id, ((identifier, hex), ...)) as a sorted JSON list"""
+    return sorted([rid, [list(kv) for kv in b]] for rid, b in st)
+
+
+def _parse_src(r):
+    """one `src-match` answer of the Lean driver -> canonical set (temporary rules `#_x#3` -> `#_x`, as for the checker)"""
+    if r.startswith('E~'):
+        return 'E:' + r[2:]
+    assert r.startswith('S~'), r[:40]
+    st = set()
+    if r[2:] != '.':
+        for m in r[2:].split(';'):
+            rid, ctx = m.split('@')
+            b = () if ctx == '.' else tuple(sorted(tuple(kv.split('=')) for kv in ctx.split(',')))
+            st.add(('#' + rid.split('#')[1], b))
+    return _canon_set(st)
+
+
 def run_impl(case):
     Component, Name, compile_lvs, Checker, SemanticError, LvsModelError, DFN, bny = L.mods()
     fns = L.user_fns(L.FN_NAMES + (['$first'] if case.get('oracle_only') else []))
@@ -131,6 +157,7 @@ def run_impl(case):
     L.cap_steps(ck2)
     names = [L.name_bytes(n, case['digest']) for n in case['names']]
     res['matches'], res['matches_reloaded'], res['verdict'] = [], [], []
+    res['checker_sets'], res['spec_sets'] = [], []      # per name: canonical set of (rule, bindings), or 'skipped'
     for nb in names:
         outs, exc = L.impl_match(ck, nb)
         outs2, exc2 = L.impl_match(ck2, nb)
@@ -139,13 +166,19 @@ def run_impl(case):
         # the oracle's comparison is made here, because sets of tuples are not JSON
         if exc is not None:
             res['verdict'].append('raised:' + exc)
+            res['checker_sets'].append('skipped')
+            res['spec_sets'].append('skipped')
             continue
         try:
             exp = spec.match(L.strip_digest(nb))
         except Exception as e:          # noqa (a user function raised)
             res['verdict'].append('spec-raised:' + type(e).__name__)
+            res['checker_sets'].append('skipped')
+            res['spec_sets'].append('skipped')
             continue
         got = _rule_set(outs, ck._symbols)
+        res['checker_sets'].append(_canon_set(got))
+        res['spec_sets'].append(_canon_set(exp))
         if got == exp:
             res['verdict'].append('match' if exp else 'nomatch')
         else:
@@ -158,9 +191,10 @@ def run_impl(case):
 def model_line(case, impl):
     if case.get('oracle_only'):
         return None
-    # the Lean side starts from the schema AST: compiler model -> loader model -> matcher model
+    # the Lean side starts from the schema AST: compiler model -> loader model -> matcher model; and, separately, the
+    # source-level semantics evaluated on the AST (no compiled model involved)
     names = [L.name_bytes(n, case['digest']) for n in case['names']]
-    return 'C11 cfull %s %s %s' % (L.enc_schema(case['schema']), L.enc_env(L.FN_NAMES), '/'.join(L.enc_name(n) for n in names))
+    return 'C11 csrc %s %s %s' % (L.enc_schema(case['schema']), L.enc_env(L.FN_NAMES), '/'.join(L.enc_name(n) for n in names))
 
 
 def model_obs(answer, case, impl):
@@ -188,6 +222,13 @@ def model_obs(answer, case, impl):
         pm = L.parse_match_answer(r)
         out.append([[[o[0], o[2]] for o in pm['outs']], pm['err'] if pm['halted'] else 'NONTERMINATION'])
     obs['matches'] = out if exact else L.canon_matches(out, parts[2])
+    # the source-level semantics of the Lean model, name by name; a name on which the real checker (or a user function
+    # under the Python oracle) raised is not compared
+    src = [_parse_src(r) for r in parts[5].split('/')]
+    skip = impl.get('checker_sets') or []
+    src = ['skipped' if i < len(skip) and skip[i] == 'skipped' else s for i, s in enumerate(src)]
+    obs['source_semantics_vs_checker'] = src
+    obs['source_semantics_vs_oracle'] = src
     return obs
 
 
@@ -200,6 +241,8 @@ def impl_obs(impl):
            'merge_key_injective': True}        # expected of every schema: else two different constraint sets were merged
     if impl['build'] == 'ok':
         obs['matches'] = impl['matches'] if exact else L.canon_matches(impl['matches'], impl['symbols'])
+        obs['source_semantics_vs_checker'] = impl['checker_sets']
+        obs['source_semantics_vs_oracle'] = impl['spec_sets']
     return obs
 
 
@@ -264,18 +307,17 @@ def finding_key(case, impl, why):
     return 'reports-match-not-in-rule-as-written'
 
 
-LEVEL_TEXT = ('Lean 4 theorems over a hand-written model of Checker._match/match on the binary model tree: the iterative back-tracking '
-              'search (explicit stacks) yields exactly the list computed by structural recursion on the name, which is sound and '
-              'complete w.r.t. a path semantics of the compiled tree (value edge equal; pattern edge: unbound tag binds, bound tag must '
-              'repeat, every CNF constraint has an option holding under the bindings so far). The compiler is modelled too (the passes of '
-              'compiler.py as written, AST -> node pool): it is proved to emit only Sane, VDet models, so these theorems apply to compiler '
-              'output unconditionally, and its node-merging pass is proved to preserve the accepted (rule, name, bindings) triples of the '
-              'replicated rule chains (given an injective merge key, which the driver tests on every schema). Source text = chains '
-              '(numbering, replication) is tied on every run by differential execution (schema AST -> Lean compiler vs real compile_lvs: '
-              'node pools compared; Lean loader + matcher on the Lean-compiled pool vs real Checker) and by a source-level oracle '
-              'transcribed from docs/src/lvs/lvs.rst.')
-LEVEL_NOTE = ('compile_correct is proved in part (named compile_correct_partial): compiler modelled and tied by differential execution, '
-              'output well-formed, node merging correct w.r.t. the chains; that numbering and replication preserve the source semantics '
-              'is not proved. Proof is about the model; model=code is sampled.')
-TECHNIQUE = 'Lean 4 proof (simulation of the iterative search; soundness/completeness w.r.t. a path semantics; invariants of the compiler passes; node merging = union of chains by induction on the generated tree) + model/implementation correspondence check (compiler, loader, matcher) + source-level oracle'
+LEVEL_TEXT = ('Lean 4 theorems from the source text to the answers of Checker.match: a source-level semantics transcribed from '
+              'docs/src/lvs/lvs.rst (Expands / Flat.run / SrcMatches) and a hand-written model of the whole compiler (the passes of '
+              'compiler.py as written) and of Checker._match/match. compile_correct: on the compiled model the iterative back-tracking search '
+              'reports rule r with bindings s for a name iff the name matches r as written with bindings s - proved layer by layer: pattern '
+              'numbering, DNF replication / reference inlining with fresh temporaries (chains = expansions of the definitions), a chain '
+              'accepts what its expansion matches, node merging (given an injective merge key, which the driver tests on every schema), '
+              'the compiled tree\'s path semantics, the iterative search = the recursive one. Tied to the code on every run by '
+              'differential execution (schema AST -> Lean compiler vs real compile_lvs: node pools compared; Lean loader + matcher on the '
+              'Lean-compiled pool vs real Checker; the Lean source semantics evaluated on the AST vs the real Checker.match and vs the Python '
+              'oracle) and by a source-level oracle transcribed independently from the document.')
+LEVEL_NOTE = ('compile_correct is proved for the model with one hypothesis (KeyInj: the merge key string determines tag and constraints), '
+              'tested per schema. Proof is about the model; model=code is sampled.')
+TECHNIQUE = 'Lean 4 proof (source-level semantics as an inductive relation; refinement through the compiler passes: numbering, replication with an alpha-renaming invariant for fresh temporaries, node merging = union of chains by induction on the generated tree; simulation of the iterative search; soundness/completeness w.r.t. a path semantics) + model/implementation correspondence check (compiler, loader, matcher) + source-level oracle'
 DESIGN_REF = 'DESIGN.md section 7, C11; finding F8'
